@@ -331,6 +331,22 @@ def h_pus(ctx, which, n0, n1):
     ctx.holds("data assigned as a bytearray: space packet view twice, then pack: same octets as a fresh object, length == packed",
               sym_and(v1 == fresh.pack(), v2 == fresh.pack(), r3 == fresh.pack(), o3.packet_len == len(r3), o3 == fresh))
     ctx.holds("the caller's buffer is left as it was", sym_and(len(buf) == n1, buf == d1))
+    # a checksum computed before the assignment (by pack(), calc_crc() or the decoder) is not carried into a later view
+    for how in ("packed", "calc_crc", "decoded"):
+        o4 = PusTc(*args, d0, sc) if which == "tc" else PusTm(*args, d0, apid, sc)
+        if how == "packed":
+            o4.pack()
+        elif how == "calc_crc":
+            o4.calc_crc()
+        else:
+            o4 = unpack(o4.pack())
+        if which == "tc":
+            o4.app_data = d1
+        else:
+            o4.tm_data = d1
+        v4 = o4.to_space_packet().pack()
+        ctx.holds("data assigned after the checksum was computed (%s): the space packet view has the octets of a fresh object" % how,
+                  sym_and(v4 == fresh.pack(), o4.pack() == fresh.pack(), o4.packet_len == len(v4)))
     if which == "tm":
         # the same setter on an object that came out of the decoder / the composite constructor
         for name, o2 in (("decoded", PusTm.unpack(PusTm(*args, d0, apid, sc).pack(), 2)),
